@@ -242,11 +242,11 @@ POOLS = {   # options whose value grammar the specification decides for ANY sequ
     "--nth": ["1", "2", "3", "-1", "0", "..", ",", "a"],
     "--height": ["~", "-1", "10", "50", "100", "256", "%", "a"],
     "--walker": ["file", "dir", "hidden", "follow", ",", "bogus"],
-    "--expect": ["a", "x", "ctrl-a", "enter", "f2", "space", ",", "alt-x", "up", "tab", " ", ":", "+"],
+    "--expect": ["a", "x", "ctrl-a", "enter", "f2", "space", ",", "alt-x", "up", "tab", " ", ":", "+", "alt-", "alt-"],
 }
 OPTNUM, OPTSTR = ["--multi", "--sort"], ["--border", "--color", "--tmux"]
 BIND_KEYS = ["a", "x", "ctrl-a", "enter", "return", "f2", "alt-x", "space", "load", "change", "tab", "up", "down", ",", ":", "+",
-             " ", "("]
+             " ", "(", "alt-", "alt-"]
 BIND_PLAIN = ["up", "down", "accept", "abort", "select-all", "toggle-down", "preview-up", "print-query",
               "toggle-preview", "change-multi", "put", "bogus"]
 BIND_EXEC = ["execute", "execute-silent", "reload", "change-prompt", "transform-query", "put", "unbind", "change-multi"]
